@@ -958,6 +958,8 @@ class Interp:
                 x = self.eval(v.value, env)
                 if v.format_spec is None and v.conversion == -1 and isinstance(x, (str, int)) and not isinstance(x, bool):
                     parts.append(str(x))
+                elif v.format_spec is None and v.conversion == -1 and getattr(x, 'typ', None) == 'str':
+                    parts.append(x)  # format() of a str is the str itself
                 else:
                     parts.append(App('fmt', x, v.conversion))
         if all(isinstance(p, str) for p in parts):
@@ -2003,6 +2005,28 @@ class Interp:
         if isinstance(recv, range):
             return getattr(recv, name)(*args)
         raise Unsupported(f'method {name} on {vrepr(recv)}')
+
+
+def sort_key_kind(it: 'Interp', f: Any) -> str:
+    """What a `key=` argument of sorted() projects out of a (key, value) entry: 'identity' (no key function), 'first' (the entry's key:
+    `lambda x: x[0]`, `operator.itemgetter(0)`, a named function returning its argument's first item), 'other:<term>' or 'unknown'.
+    Decided by applying the function to a symbolic pair, not by its spelling."""
+    if f is None:
+        return 'identity'
+    if isinstance(f, App) and f.op in ('call:operator.itemgetter', 'call:itemgetter') and list(f.args) == [0]:
+        return 'first'
+    if isinstance(f, FuncRef):
+        probe = (Sym('probe_k'), Sym('probe_v'))
+        try:
+            r = it.call_function(f, [probe], {}, None, force_inline=True)
+        except Exception:
+            return 'unknown'
+        if isinstance(r, Sym) and r.name == 'probe_k':
+            return 'first'
+        if isinstance(r, tuple) and len(r) == 2 and all(isinstance(x, Sym) for x in r) and (r[0].name, r[1].name) == ('probe_k', 'probe_v'):
+            return 'identity'
+        return 'other:' + vrepr(r)
+    return 'unknown'
 
 
 import json as _json
